@@ -12,7 +12,8 @@ EXPLANATION = (
     "Decided part of C19: (R1) writer/reader agreement of the reference format: the writer is "
     "'%s%s%s' % (name_hash, sep, id); every reader slices [:H] for the strategy and [H+1:] for the order id with "
     "the same constant H = STRATEGY_NAME_HASH_LENGTH that the writer's hash is truncated to; the hash is a "
-    "sha1 hexdigest prefix (40 >= H, so exactly H characters); the separator validator admits length 1 only, "
+    "sha1 hexdigest prefix (40 >= H, so exactly H characters) over the lossless utf-8 encoding of the name; no reader "
+    "searches for a separator character; the separator validator admits length 1 only, "
     "which is what H+1 assumes; Strategies.hashes is keyed by that hash; (R2) length: H + 1 + digits(id) <= 32 "
     "where id = str(uuid.uuid1().time), whose number of digits the checker computes for all dates from 1900 "
     "to 4750; (R3) charset: [0-9a-f], digits and the separator set are inside the documented Betfair set, and "
